@@ -319,7 +319,7 @@ func goStringLit(s string) string { return fmt.Sprintf("%q", s) }
 // genFuncCall returns `%fn(args)%` for a registered function.
 func (g *G) genFuncCall(label string) string {
 	opts := []string{"env", "envInt"}
-	if g.O.Todo && !g.O.Behavioural {
+	if g.O.Todo {
 		opts = append(opts, "todo")
 	}
 	opts = append(opts, g.funcs...)
@@ -328,13 +328,25 @@ func (g *G) genFuncCall(label string) string {
 	case "env":
 		g.L.Add("fn:env")
 		name := pickStr(g, envNames, label+"-env")
-		if g.flip(label + "-def") {
+		switch g.draw(3, label+"-def") {
+		case 0:
 			return fmt.Sprintf(`%%env(%s, %s)%%`, goStringLit(name), goStringLit(g.genTextNoPercent(label+"-d")))
+		case 1:
+			if g.O.Behavioural {
+				return fmt.Sprintf(`%%env(%s)%%`, goStringLit(name)) // fails when the variable is unset
+			}
 		}
 		return fmt.Sprintf(`%%env(%s, "dflt")%%`, goStringLit(name))
 	case "envInt":
 		g.L.Add("fn:envInt")
-		return fmt.Sprintf(`%%envInt(%s, %d)%%`, goStringLit("VERIF_UNSET"), rapid.IntRange(-5, 5).Draw(g.T, label+"-i"))
+		name := "VERIF_UNSET"
+		if g.O.Behavioural {
+			name = pickStr(g, envNames, label+"-envint")
+		}
+		if g.O.Behavioural && g.draw(3, label+"-nodef") == 0 {
+			return fmt.Sprintf(`%%envInt(%s)%%`, goStringLit(name))
+		}
+		return fmt.Sprintf(`%%envInt(%s, %d)%%`, goStringLit(name), rapid.IntRange(-5, 5).Draw(g.T, label+"-i"))
 	case "todo":
 		g.L.Add("fn:todo")
 		if g.flip(label + "-msg") {
